@@ -56,6 +56,18 @@ static inline Bytes encode(const Frame &f, bool fix_crc = true) {
     return b;
 }
 
+// Raw frame whose payload-checksum word is forced to a given value while the header checksum stays consistent
+// (so that the payload check is the only barrier the frame meets).
+static inline Bytes encode_forged_plcrc(const Frame &f, uint16_t plcrc) {
+    Frame g = f; g.options |= OPT_PLCRC; g.plcrc = plcrc;
+    if (g.options & OPT_HDCRC) {
+        Bytes h; uint16_t motv = (uint16_t)((g.version & 15) | ((g.type & 15) << 4) | ((g.options & 15) << 8) | ((g.meta & 15) << 12));
+        put16(h, motv); put16(h, g.seq); put32(h, g.addr); put32(h, g.bsize);
+        uint16_t c = crc16arc(h.data(), 12); uint8_t w[2] = {(uint8_t)(plcrc >> 8), (uint8_t)plcrc}; g.hdcrc = crc16arc(w, 2, c);
+    }
+    return encode(g, false);
+}
+
 // Independent reading of the document for an arbitrary octet sequence.
 static inline Verdict classify(const Bytes &raw, Frame &f) {
     f = Frame();
